@@ -1,8 +1,11 @@
 SPECIFICATION Spec
 CONSTANTS
   Mode = "alpha"
+  MinLen = 0
   MaxLen = 3
   AlphaN = 24
-  NRand = 500
+  NRand = 300
   Seed = 1
+  Slice = 0
+  NSlices = 1
 INVARIANTS RefRoundTrip RefNameRoundTrip EmitCase
